@@ -65,6 +65,19 @@ static inline unsigned long c04_nax(int axis, unsigned long ndim)
 #define C04_NAX(axis, ndim)      c04_nax((axis), (ndim))
 /* mathematical (floor) modulo of a signed value by a positive modulus */
 static inline long c04_floor_mod(long a, long n) { long r = a % n; return r < 0 ? r + n : r; }
+/* executable form of (i - s) mod n used in the verifier's postcondition, for 0 <= i < n <= 2^30 and any int s:
+ * reduce s with C's truncating remainder, subtract, wrap once.  It equals the mathematical modulo for every s:
+ * lemmas/c04_roll_mod.lean (theorem c04_roll_src_eq_math_mod); natively both forms are evaluated and compared. */
+static inline long c04_roll_src(long i, int s, long n)
+{
+  long r1 = (long)(s % (int)n), d = i - r1;
+  return d < 0 ? d + n : (d >= n ? d - n : d);
+}
+#ifdef VERIF_NATIVE
+  #define C04_NATIVE_ALSO(x) (x)
+#else
+  #define C04_NATIVE_ALSO(x) 1
+#endif
 /* d = idx[axis] - shift, the un-normalised source coordinate */
 #define C04_ROLL_N(shape, axis)              ((long)SV_AT(shape, C04_NAX(axis, SV_LEN(shape))))
 #define C04_ROLL_D(shape, idx, shift, axis)  ((long)SV_AT(idx, C04_NAX(axis, SV_LEN(shape))) - (long)(shift))
@@ -97,7 +110,8 @@ static inline int post_verif_roll(sv_t shape, sv_t idx, int shift, int axis, sv_
   unsigned long nd = SV_LEN(shape), ax = C04_NAX(axis, nd);
   return SV_LEN(ret) == nd
       && IMPLIES(g < nd && g != ax, SV_AT(ret, g) == SV_AT(idx, g))
-      && SV_AT(ret, ax) == (unsigned long)c04_floor_mod(C04_ROLL_D(shape, idx, shift, axis), C04_ROLL_N(shape, axis))
+      && SV_AT(ret, ax) == (unsigned long)c04_roll_src((long)SV_AT(idx, ax), shift, C04_ROLL_N(shape, axis))
+      && C04_NATIVE_ALSO(SV_AT(ret, ax) == (unsigned long)c04_floor_mod(C04_ROLL_D(shape, idx, shift, axis), C04_ROLL_N(shape, axis)))
       && IMPLIES(g < nd, SV_AT(ret, g) < SV_AT(shape, g));
 }
 
@@ -256,3 +270,226 @@ static inline int post_verif_repeat(sv_t shape, sv_t idx, unsigned long repeats,
   unsigned long d = SV_LEN(shape);
   return HN_LEN(ret) == d && IMPLIES(g < d, HN_AT(ret, g) == RPX[g] && HN_AT(ret, g) < SV_AT(shape, g));
 }
+
+/* =============================================================== take (1-d index list, integer axis)
+ * np.take(a, ind, axis): out.shape = a.shape with the axis extent replaced by len(ind);
+ * out[.., j, ..] = a[.., ind[j], ..]; entries of ind must satisfy -n <= ind[j] < n, negative entries count from the end. */
+GHOST_ARR(unsigned long, TSH, 10)   /* TSH[k] = expected extent k of the take shape */
+GHOST_ARR(unsigned long, TKX, 10)   /* TKX[k] = expected source coordinate k */
+/* the source coordinate designated on the axis: ind[idx[axis]] normalised Python-style */
+static inline unsigned long c04_take_src(sv_t idx, sv_t shape, iv_t indices, int axis)
+{
+  unsigned long ax = C04_NAX(axis, SV_LEN(shape));
+  unsigned long j = SV_AT(idx, ax);
+  if (j >= CAP) return 0UL;
+  long e = (long)SV_AT(indices, j);
+  return (unsigned long)(e < 0 ? e + (long)SV_AT(shape, ax) : e);
+}
+static inline int pre_verif_shape_take(sv_t shape, iv_t indices, int axis)
+{
+  unsigned long d = SV_LEN(shape), ax = C04_NAX(axis, d);
+  int ok = d <= CAP && SV_LEN(indices) <= CAP && C04_AXIS_OK(axis, d);
+  for (unsigned long k = 0; k < CAP; k++)
+    if (ok && k < d) ok = ok && GHOST_DEF(TSH[k], k == ax ? SV_LEN(indices) : SV_AT(shape, k));
+  return ok;
+}
+static inline int post_verif_shape_take(sv_t shape, iv_t indices, int axis, sv_t ret)
+{
+  unsigned long d = SV_LEN(shape), ax = C04_NAX(axis, d);
+  return SV_LEN(ret) == d && IMPLIES(g < d, SV_AT(ret, g) == (g == ax ? SV_LEN(indices) : SV_AT(shape, g)));
+}
+static inline int pre_verif_take(sv_t idx, sv_t shape, iv_t indices, int axis)
+{
+  unsigned long d = SV_LEN(shape), ax = C04_NAX(axis, d), n = SV_LEN(indices);
+  int ok = d <= CAP && n <= CAP && SV_LEN(idx) == d && C04_AXIS_OK(axis, d);
+  if (ok) ok = ok && SV_AT(shape, ax) <= C04_BIG;
+  for (unsigned long k = 0; k < CAP; k++) {
+    if (ok && k < d) ok = ok && SV_AT(idx, k) < (k == ax ? n : SV_AT(shape, k));                 /* idx inside the take shape */
+    if (ok && k < n) ok = ok && -(long)SV_AT(shape, ax) <= (long)SV_AT(indices, k) && (long)SV_AT(indices, k) < (long)SV_AT(shape, ax);  /* entries valid for NumPy */
+  }
+  for (unsigned long k = 0; k < CAP; k++)
+    if (ok && k < d) ok = ok && GHOST_DEF(TKX[k], k == ax ? c04_take_src(idx, shape, indices, axis) : SV_AT(idx, k));
+  return ok;
+}
+static inline int post_verif_take(sv_t idx, sv_t shape, iv_t indices, int axis, hn_t ret)
+{
+  unsigned long d = SV_LEN(shape);
+  return HN_LEN(ret) == d && IMPLIES(g < d, HN_AT(ret, g) == TKX[g] && HN_AT(ret, g) < SV_AT(shape, g));
+}
+
+/* =============================================================== resize (documented: nearest-neighbour sampling)
+ * shape_resize(src,dst): Nothing iff ranks differ or some dst extent is 0, else dst;  resize(i)[k] = floor(src[k] * i[k] / dst[k]). */
+GHOST_ARR(unsigned long, RZP, 10)   /* RZP[k] = 1 iff k >= ndim or dst[k] > 0 */
+GHOST_ARR(unsigned long, RZQ, 10)   /* RZQ[k] = floor(src[k]*idx[k]/dst[k]) */
+GHOST_ARR(unsigned long, RZR, 10)   /* RZR[k] = RZQ[k] after the float round trip of resize.hpp:73 */
+#define C04_U32MAX 4294967295UL
+static inline int pre_verif_shape_resize(sv_t src_shape, sv_t dst_shape)
+{
+  int ok = SV_LEN(src_shape) <= CAP && SV_LEN(dst_shape) <= CAP;
+  for (unsigned long k = 0; k < CAP; k++)
+    if (ok) ok = ok && GHOST_DEF(RZP[k], (unsigned long)(k >= SV_LEN(dst_shape) || SV_AT(dst_shape, k) > 0UL));
+  return ok;
+}
+static inline int post_verif_shape_resize(sv_t src_shape, sv_t dst_shape, opt_sv_t ret)
+{
+  unsigned long d = SV_LEN(dst_shape);
+  int valid = SV_LEN(src_shape) == d;
+  for (unsigned long k = 0; k < CAP; k++)
+    if (valid && k < d) valid = valid && SV_AT(dst_shape, k) > 0UL;
+  return (OPT_HAS(ret) != 0) == (valid != 0)
+      && IMPLIES(OPT_HAS(ret), SV_LEN(OPT_VAL(ret)) == d && IMPLIES(g < d, SV_AT(OPT_VAL(ret), g) == SV_AT(dst_shape, g)));
+}
+/* region of the known finding: the quotient does not survive the conversion to float and back (needs >= 25 significant bits) */
+static inline int c04_resize_lossy(sv_t idx, sv_t src_shape, sv_t dst_shape)
+{
+  int lossy = 0;
+  for (unsigned long k = 0; k < CAP; k++)
+    if (k < SV_LEN(src_shape)) {
+      unsigned long q = DIV_ul(MUL_ul(SV_AT(src_shape, k), SV_AT(idx, k)), SV_AT(dst_shape, k));
+      lossy = lossy || (unsigned long)(float)q != q;
+    }
+  return lossy;
+}
+static inline int pre_verif_resize(sv_t idx, sv_t src_shape, sv_t dst_shape)
+{
+  unsigned long d = SV_LEN(src_shape);
+  int ok = d <= CAP && SV_LEN(dst_shape) == d && SV_LEN(idx) == d;
+  for (unsigned long k = 0; k < CAP; k++)
+    if (ok && k < d) {
+      /* accepted by shape_resize, idx inside dst_shape, source axis not empty, src*idx fits in 64 bits */
+      ok = ok && SV_AT(dst_shape, k) >= 1UL && SV_AT(idx, k) < SV_AT(dst_shape, k)
+              && SV_AT(src_shape, k) >= 1UL && SV_AT(src_shape, k) <= C04_U32MAX && SV_AT(dst_shape, k) <= C04_U32MAX;
+      ok = ok && GHOST_DEF(RZQ[k], DIV_ul(MUL_ul(SV_AT(src_shape, k), SV_AT(idx, k)), SV_AT(dst_shape, k)));
+      /* arithmetic fact (theorem for products that fit): i < d && s >= 1  ==>  s*i/d < s */
+      ok = ok && RZQ[k] < SV_AT(src_shape, k);
+      ok = ok && GHOST_DEF(RZR[k], (unsigned long)(float)RZQ[k]);
+    }
+  return ok;
+}
+static inline int post_verif_resize(sv_t idx, sv_t src_shape, sv_t dst_shape, sv_t ret)
+{
+  unsigned long d = SV_LEN(src_shape);
+  return SV_LEN(ret) == d && IMPLIES(g < d, SV_AT(ret, g) == RZQ[g] && SV_AT(ret, g) < SV_AT(src_shape, g));
+}
+
+/* =============================================================== expand: shape (documented: `spacing` fill elements between neighbours)
+ * out[axis] = n + (n-1)*spacing for n >= 1, other extents unchanged. */
+GHOST_ARR(unsigned long, XSH, 10)
+static inline int pre_verif_shape_expand(sv_t shape, int axis, unsigned long spacing)
+{
+  unsigned long d = SV_LEN(shape), ax = C04_NAX(axis, d);
+  int ok = d <= CAP && C04_AXIS_OK(axis, d);
+  if (ok) ok = ok && SV_AT(shape, ax) >= 1UL;
+  for (unsigned long k = 0; k < CAP; k++)
+    if (ok && k < d) ok = ok && GHOST_DEF(XSH[k], k == ax ? SV_AT(shape, k) + MUL_ul(SV_AT(shape, k) - 1UL, spacing) : SV_AT(shape, k));
+  return ok;
+}
+static inline int post_verif_shape_expand(sv_t shape, int axis, unsigned long spacing, sv_t ret)
+{
+  unsigned long d = SV_LEN(shape);
+  return SV_LEN(ret) == d && IMPLIES(g < d, SV_AT(ret, g) == XSH[g]);
+}
+
+/* =============================================================== diagonal
+ * np.diagonal(a, offset, axis1, axis2): ndim >= 2, axis1 != axis2 (normalised); out.shape = a.shape without the two axes,
+ * with the diagonal length appended: max(0, min(n1, n2 - offset)) for offset >= 0, max(0, min(n1 + offset, n2)) for offset < 0;
+ * out[..., i] = a[.. axis1: i + max(-offset,0) .. axis2: i + max(offset,0) ..]. */
+GHOST_ARR(unsigned long, DSH, 10)   /* DSH[j] = j-th extent of the result (kept axes in order, then the diagonal length) */
+GHOST_ARR(unsigned long, DIX, 10)   /* DIX[k] = expected source coordinate k */
+#define C04_DIAG_MAX_EXTENT 1073741824UL
+static inline unsigned long c04_diag_len(unsigned long n1, unsigned long n2, int offset)
+{
+  long a = (long)n1 + (offset < 0 ? (long)offset : 0L), b = (long)n2 - (offset > 0 ? (long)offset : 0L);
+  long m = a < b ? a : b;
+  return m < 0 ? 0UL : (unsigned long)m;
+}
+/* position of source axis k among the kept axes */
+#define C04_KEPT_POS(k, a1, a2) ((k) - ((a1) < (k) ? 1UL : 0UL) - ((a2) < (k) ? 1UL : 0UL))
+static inline int c04_diag_args_ok(sv_t shape, int axis1, int axis2)
+{
+  unsigned long d = SV_LEN(shape);
+  return d >= 2UL && d <= CAP && C04_AXIS_OK(axis1, d) && C04_AXIS_OK(axis2, d) && C04_NAX(axis1, d) != C04_NAX(axis2, d);
+}
+static inline int pre_verif_shape_diagonal(sv_t shape, int offset, int axis1, int axis2)
+{
+  unsigned long d = SV_LEN(shape), a1 = C04_NAX(axis1, d), a2 = C04_NAX(axis2, d);
+  int ok = c04_diag_args_ok(shape, axis1, axis2);
+  if (ok) ok = ok && SV_AT(shape, a1) <= C04_DIAG_MAX_EXTENT && SV_AT(shape, a2) <= C04_DIAG_MAX_EXTENT;
+  for (unsigned long k = 0; k < CAP; k++)
+    if (ok && k < d && k != a1 && k != a2) ok = ok && GHOST_DEF(DSH[C04_KEPT_POS(k, a1, a2)], SV_AT(shape, k));
+  if (ok) ok = ok && GHOST_DEF(DSH[d - 2UL], c04_diag_len(SV_AT(shape, a1), SV_AT(shape, a2), offset));
+  return ok;
+}
+static inline int post_verif_shape_diagonal(sv_t shape, int offset, int axis1, int axis2, sv7_t ret)
+{
+  unsigned long d = SV_LEN(shape);
+  return SV_LEN(ret) == d - 1UL && IMPLIES(g < d - 1UL, SV_AT(ret, g) == DSH[g]);
+}
+/* view::diagonal_indexer passes the normalised (unsigned) axes and the raw offset to index::diagonal */
+static inline int pre_verif_diagonal(sv_t shape, sv_t idx, int offset, unsigned int axis1, unsigned int axis2)
+{
+  unsigned long d = SV_LEN(shape), a1 = axis1, a2 = axis2;
+  int ok = d >= 2UL && d <= CAP && a1 < d && a2 < d && a1 != a2 && SV_LEN(idx) == d - 1UL;
+  if (ok) ok = ok && SV_AT(shape, a1) <= C04_DIAG_MAX_EXTENT && SV_AT(shape, a2) <= C04_DIAG_MAX_EXTENT;
+  for (unsigned long k = 0; k < CAP; k++)
+    if (ok && k < d && k != a1 && k != a2) {
+      ok = ok && SV_AT(idx, C04_KEPT_POS(k, a1, a2)) < SV_AT(shape, k);          /* idx inside the diagonal view's shape */
+      ok = ok && GHOST_DEF(DIX[k], SV_AT(idx, C04_KEPT_POS(k, a1, a2)));
+    }
+  if (ok) {
+    unsigned long i = SV_AT(idx, d - 2UL);
+    ok = ok && i < c04_diag_len(SV_AT(shape, a1), SV_AT(shape, a2), offset);
+    ok = ok && GHOST_DEF(DIX[a1], offset < 0 ? i + (unsigned long)(-(long)offset) : i);
+    ok = ok && GHOST_DEF(DIX[a2], offset > 0 ? i + (unsigned long)offset : i);
+  }
+  return ok;
+}
+static inline int post_verif_diagonal(sv_t shape, sv_t idx, int offset, unsigned int axis1, unsigned int axis2, sv_t ret)
+{
+  unsigned long d = SV_LEN(shape);
+  return SV_LEN(ret) == d && IMPLIES(g < d, SV_AT(ret, g) == DIX[g] && SV_AT(ret, g) < SV_AT(shape, g));
+}
+
+/* =============================================================== tril / triu / eye / tri
+ * np.tril(m,k): keep m[..,i,j] where j - i <= k; np.triu(m,k): keep where j - i >= k (1-d input of length N is used as an (N,N) matrix of rows);
+ * np.eye(N,M,k): 1 where j - i == k; np.tri(N,M,k): 1 where j - i <= k.  Nothing = "not taken from the (zero) source" = fill / one. */
+#define C04_TRI_MAX 1073741823L
+static inline int pre_verif_shape_tril(sv_t shape) { return SV_LEN(shape) >= 1UL && SV_LEN(shape) <= CAP; }
+static inline int post_verif_shape_tril(sv_t shape, sv_t ret)
+{
+  unsigned long d = SV_LEN(shape);
+  if (d == 1UL) return SV_LEN(ret) == 2UL && SV_AT(ret, 0) == SV_AT(shape, 0) && SV_AT(ret, 1) == SV_AT(shape, 0);
+  return SV_LEN(ret) == d && IMPLIES(g < d, SV_AT(ret, g) == SV_AT(shape, g));
+}
+static inline int pre_verif_shape_triu(sv_t shape) { return pre_verif_shape_tril(shape); }
+static inline int post_verif_shape_triu(sv_t shape, sv_t ret) { return post_verif_shape_tril(shape, ret); }
+/* idx is an index into shape_tril(shape); the last two extents and |k| are within the int arithmetic of the predicate */
+static inline int c04_tri_pre(sv_t shape, sv_t idx, int k, int promote_1d)
+{
+  unsigned long d = SV_LEN(shape), dd = (promote_1d && d == 1UL) ? 2UL : d;
+  int ok = d >= 1UL && dd >= 2UL && d <= CAP && SV_LEN(idx) == dd && -C04_TRI_MAX <= (long)k && (long)k <= C04_TRI_MAX;
+  for (unsigned long t = 0; t < CAP; t++)
+    if (ok && t < dd) ok = ok && SV_AT(idx, t) < SV_AT(shape, d == 1UL ? 0UL : t);
+  if (ok) ok = ok && SV_AT(idx, dd - 1UL) <= (unsigned long)C04_TRI_MAX && SV_AT(idx, dd - 2UL) <= (unsigned long)C04_TRI_MAX;
+  return ok;
+}
+/* j - i for the last two coordinates */
+static inline long c04_tri_diff(sv_t idx) { return (long)SV_AT(idx, SV_LEN(idx) - 1UL) - (long)SV_AT(idx, SV_LEN(idx) - 2UL); }
+static inline int c04_tri_src_ok(sv_t shape, sv_t idx, opt_sv_t ret)
+{
+  unsigned long d = SV_LEN(shape);
+  if (d == 1UL) return SV_LEN(OPT_VAL(ret)) == 1UL && SV_AT(OPT_VAL(ret), 0) == SV_AT(idx, 1) && SV_AT(OPT_VAL(ret), 0) < SV_AT(shape, 0);
+  return SV_LEN(OPT_VAL(ret)) == d && IMPLIES(g < d, SV_AT(OPT_VAL(ret), g) == SV_AT(idx, g) && SV_AT(OPT_VAL(ret), g) < SV_AT(shape, g));
+}
+static inline int pre_verif_tril(sv_t shape, sv_t idx, int k) { return c04_tri_pre(shape, idx, k, 1); }
+static inline int post_verif_tril(sv_t shape, sv_t idx, int k, opt_sv_t ret)
+{ return (OPT_HAS(ret) != 0) == (c04_tri_diff(idx) <= (long)k) && IMPLIES(OPT_HAS(ret), c04_tri_src_ok(shape, idx, ret)); }
+static inline int pre_verif_triu(sv_t shape, sv_t idx, int k) { return c04_tri_pre(shape, idx, k, 1); }
+static inline int post_verif_triu(sv_t shape, sv_t idx, int k, opt_sv_t ret)
+{ return (OPT_HAS(ret) != 0) == (c04_tri_diff(idx) >= (long)k) && IMPLIES(OPT_HAS(ret), c04_tri_src_ok(shape, idx, ret)); }
+static inline int pre_verif_eye(sv_t shape, sv_t idx, int k) { return c04_tri_pre(shape, idx, k, 0); }
+static inline int post_verif_eye(sv_t shape, sv_t idx, int k, opt_sv_t ret)
+{ return (OPT_HAS(ret) == 0) == (c04_tri_diff(idx) == (long)k) && IMPLIES(OPT_HAS(ret), c04_tri_src_ok(shape, idx, ret)); }
+static inline int pre_verif_tri(sv_t shape, sv_t idx, int k) { return c04_tri_pre(shape, idx, k, 0); }
+static inline int post_verif_tri(sv_t shape, sv_t idx, int k, opt_sv_t ret)
+{ return (OPT_HAS(ret) == 0) == (c04_tri_diff(idx) <= (long)k) && IMPLIES(OPT_HAS(ret), c04_tri_src_ok(shape, idx, ret)); }
